@@ -15,8 +15,9 @@
       - `ChainBound` per component: recovery component = XOR of the matching's path operators,
                   path weight ≤ pair distance (C15), chosen matching minimal (C13), and the
                   error chain induces a perfect matching of total distance ≤ its weight
-                  (`chain_induces_matching`: PROVED for the torus in Props/C14/Chain.lean, where
-                  `toric_mwpm_corrects` derives `ChainBound`; planar: see the end of the file).
+                  (`chain_induces_matching`: PROVED for the torus and the planar code in
+                  Props/C14/Chain.lean, where `toric_mwpm_corrects` / `planar_mwpm_corrects`
+                  derive `ChainBound`).
   Index facts of C07 (`PlanarFlattenBound`, `ToricFlattenBound`: qubit numbers are < n) are
   hypotheses of the split theorems.
 -/
@@ -124,37 +125,28 @@ theorem mwpm_corrects_of_chain_bound_partial (S L : List BVec) (n d : Nat)
   exact corrected_of_components S L n d hS hL hcss hd r e hr he hs (by omega) (by omega)
 
 /-
-PROVED in Props/C14/Chain.lean (no longer stated only): the generic T-join lemma
-`chain_induces_matching_generic`, `chain_induces_matching_toric` and `toric_mwpm_corrects`
-(all sizes, any minimum-weight perfect matchings; `ChainBound` is derived there, not assumed).
+PROVED in Props/C14/Chain.lean (formerly stated only): the T-join lemma `chain_induces_matching_generic`
+and its boundary form `chain_induces_matching_boundary_generic`, `chain_induces_matching_toric`,
+`chain_induces_matching_planar` (nearest-virtual-plaquette graph with the extra node), and
+`toric_mwpm_corrects`, `planar_mwpm_corrects`, `planar_decode_corrects` — all sizes, ANY
+minimum-weight perfect matchings; `ChainBound` is derived there, not assumed.
 
-STATED, NOT PROVED:
+STATED, NOT PROVED (what still separates those theorems from a hypothesis-free statement; each is a
+fact of another property and enters them as a named hypothesis):
 
-  * chain_induces_matching (planar): for R, C ≥ 2, any X-type operator `ex` on the planar R×C code with
-    primal defects D = syndromeToPlaquettes (synd (stabilizers R C) ex) restricted to primal
-    plaquettes, the decoder's primal graph G(D) (real nodes D, the nearest virtual plaquette of
-    each, the extra virtual node when the node count is odd, edge weights `Planar.distance`, zero
-    edges among virtual nodes) has a perfect matching M' with Σ_{(a,b) ∈ M'} distance a b ≤ bsfWt ex.
-    Route: apply the generic lemma `chain_induces_matching_generic` (Lemmas/TJoin.lean) to the
-    plaquette graph with ONE extra vertex for the boundary (every boundary qubit is an edge to it;
-    pseudo-metric d'(a,b) = min(dist a b, bd a + bd b), d'(a,∂) = bd a with bd = `distance` to the
-    nearest virtual plaquette), then replace each pair (a,b) with d' = bd a + bd b by the two pairs
-    (a, vp a), (b, vp b), each pair (a,∂) by (a, vp a), and match the unused virtual nodes (and the
-    extra node) among themselves at weight 0.  Still needed: the planar lattice facts (qubit = path
-    of length 1 between adjacent plaquettes or to a virtual plaquette; `Planar.distance` triangle
-    inequality; bd a ≤ 1 for boundary-adjacent a and bd a ≤ dist a b + bd b) and the matching
-    surgery on the virtual nodes.  Same for Z-type operators / the dual graph.  This is the one
-    missing lemma for
-
-  * planar_mwpm_corrects: for all R, C ≥ 2, every minimum-weight perfect
-    matching oracle and every `e` with bsfWt (xPart e) ≤ t and bsfWt (zPart e) ≤ t, t = (min R C − 1)/2:
-      ∃ r, planarDecodeWith R C mtP mtD (synd (Planar.stabilizers R C) e) = .ok r ∧
-           corrected (Planar.stabilizers R C) [Planar.logicalX R C, Planar.logicalZ R C] e r = true
-    which follows from `mwpm_corrects_of_chain_bound_partial` + `mwpm_split_planar` + C02 (`hs`) +
-    C07 (`hcss`, flatten bounds) + C08 (`hd`) + C13 (minimality) + C15 (path weights) +
-    chain_induces_matching (planar), exactly as `toric_mwpm_corrects` is assembled in
-    Props/C14/Chain.lean.  Meanwhile the harness sweeps every such error for all sizes ≤ 5×5
-    (4×5 and smaller exhaustively; see harness/qv/props/c14.py).
+  * h_distance at d = min R C for all sizes (C08): `DistHyp (stabilizers R C) logicals n (min R C)` —
+    Props/C08.lean has the upper bound (`distance_attained_*`) for all sizes and the lower bound only
+    for small sizes (`distance_*_small_bounded`).
+  * h_min… from C13: `MinWeightPM` / `MinWeightPMPlanar` for the matching returned by
+    `mwpmNetworkx oracle` on the graph built from `toricWeightedEdges` / `planarWeightedEdges` follows
+    from `C13.mwpmNetworkx_min_weight_perfect` under `NxContract`, through the driver's encoding of
+    plaquette indices as graph nodes (C13 speaks of `IsPM` / `weightBy` over `Node` with `Rat`
+    weights, C14 of `isPerfectMatchingOfGraph` / `cost` over index pairs); the translation is not
+    formalised.
+  * h_path_syndrome, h_path_weight (C15), h_css (C07) are proved in Props/C15/{Toric,Planar}.lean and
+    Lemmas/Lattice; they are cited, not re-proved, here.
+  Meanwhile the harness sweeps every error with |X|,|Z| ≤ t for all sizes ≤ 5×5
+  (4×5 and smaller exhaustively; see harness/qv/props/c14.py).
 -/
 
 /-! ### non-vacuity -/
